@@ -36,6 +36,15 @@ def run(ctx):
     n_lock = 0
     for e in G.edges:
         h, a = e['held'], e['acq']
+        if h.cls == a.cls and h.cls in ('Model', 'File'):
+            # the model / file lock taken again (one of them exclusive) by the call chain that already holds it: blocks forever
+            if a.kind == 'blocking' and (h.mode == 'W' or a.mode == 'W') and e['rel'] == 'same':
+                k = '%s|held=%s@%s|acq=%s@%s|same' % (e['fn'], h.desc(), own_str(h.own), a.desc(), own_str(a.own))
+                if k not in seen:
+                    seen.add(k)
+                    n_lock += 1
+                    C.fail('C12-FLOW-selflock', k, 'self-deadlock in single-threaded use: the %s lock is acquired (blocking, %s) while this call chain already holds it (%s); parking_lot locks are not reentrant, the call never returns' % (h.cls.lower(), a.mode, h.mode), e['where'])
+            continue
         if h.cls != 'Element' or a.cls != 'Element':
             continue
         if not (h.mode == 'W' or a.mode == 'W'):
